@@ -258,7 +258,9 @@ fn id_item(exprs: &[Vec<bool>], label: &str, seed: u64) -> Item {
     let world = id_world(exprs);
     // a quarter of the programs also run with skip_serializing_none (it adds serde attributes to the same fields)
     let skip = seed % 4 >= 2;
-    let mut base = base_from_world(world, Opts { skip_none: skip, ..Opts::default() }, if seed % 2 == 0 { Delivery::Library } else { Delivery::Derive });
+    // ... and a part under `normalization = "rust"`: the coercion is attached by type name, which that option rewrites
+    let rust = (seed / 4) % 2 == 1 || label.ends_with("-rust");
+    let mut base = base_from_world(world, Opts { skip_none: skip, normalization_rust: rust, ..Opts::default() }, if seed % 2 == 0 { Delivery::Library } else { Delivery::Derive });
     if exprs.iter().any(|e| e.len() > 1) {
         base.features.set.insert("id_in_list");
     }
@@ -391,7 +393,7 @@ pub fn run(report: &mut Report, replay: Option<&Value>) {
     let hooks = Hooks { classify: &classify, classify_compile: &classify_compile, compile_failure_is_violation: true, rebuild: None };
     // depth-0 expressions in the main campaign; lists of ID are a listed finding (probe below)
     let plain: Vec<Vec<bool>> = vec![vec![false], vec![true]];
-    let mut items = vec![id_item(&plain, "depth0", 0), id_item(&plain, "depth0-derive", 1)];
+    let mut items = vec![id_item(&plain, "depth0", 0), id_item(&plain, "depth0-derive", 1), id_item(&plain, "depth0-rust", 0), id_item(&plain, "depth0-derive-rust", 1)];
     for it in items.iter_mut() {
         it.base.features.set.insert("id");
     }
